@@ -535,7 +535,7 @@ def do_replay(prop, cfg, path, workdir, ov):
         log("replay file has no single case (race / crash without case): rerun the monitor")
         return 2
     repro = 0
-    n = 20
+    n = int(os.environ.get("VERIF_REPLAY_N", "20"))
     first = None
     for k in range(n):
         od = os.path.join(workdir, "replay", str(k))
